@@ -153,11 +153,11 @@ func fbb.(*Session).sendHandshake(s, writer, secureChallenge) (err)
   call fmt.Fprintf#2 requires bare: $1 == " %s" && len($2) == 1 && same(unbox($2[0]), addr.Addr)
   call fmt.Fprintf#3 requires fw-end: $1 == "\r" && len($2) == 0
   # every local address is listed, one entry each, in order
-  call fmt.Fprintf#1 requires in-order [C05]: gFWCount == i
-  call fmt.Fprintf#2 requires in-order [C05]: gFWCount == i
+  call fmt.Fprintf#1 requires in-order [C05 C16]: gFWCount == i
+  call fmt.Fprintf#2 requires in-order [C05 C16]: gFWCount == i
   call fmt.Fprintf#1 set gFWCount := gFWCount + 1
   call fmt.Fprintf#2 set gFWCount := gFWCount + 1
-  call fmt.Fprintf#3 requires every-address-listed [C05]: gFWCount == len(s.localFW)
+  call fmt.Fprintf#3 requires every-address-listed [C05 C16]: gFWCount == len(s.localFW)
   loop 0 invariant listed: gFWCount == $idx + 1 && !gPRWritten && gAbort == nil && gWroteAny
   call fmt.Fprintf#4 requires trailer: $1 == "; %s DE %s (%s)" && len($2) == 3 && same(unbox($2[0]), s.targetcall) && same(unbox($2[1]), s.mycall) && same(unbox($2[2]), s.locator)
   call fmt.Fprintf#5 requires master-prompt: $1 == ">\r" && s.master
